@@ -27,22 +27,23 @@ static inline char spec_digit_char(unsigned d, int upper)
     return (char)(d < 10 ? '0' + d : (upper ? 'A' : 'a') + (d - 10));
 }
 
-/* character -> digit value (letters of either case), SPEC_NODIGIT when c is no digit at all -- */
+/* character -> digit value (letters of either case), SPEC_NODIGIT when c is no digit at all.
+ * Macro forms because loop invariants must be side-effect free expressions (no calls). */
+#define SPEC_DIGIT_VALUE(c)                                                                        \
+    ((c) >= '0' && (c) <= '9'   ? (unsigned)((c) - '0')                                            \
+     : (c) >= 'a' && (c) <= 'z' ? (unsigned)((c) - 'a') + 10u                                      \
+     : (c) >= 'A' && (c) <= 'Z' ? (unsigned)((c) - 'A') + 10u                                      \
+                                : SPEC_NODIGIT)
+/* "can continue a number in that base" */
+#define SPEC_IS_DIGIT_OF(c, base) (SPEC_DIGIT_VALUE(c) < (unsigned)(base))
+
 static inline unsigned spec_digit_value(char c)
 {
-    if (c >= '0' && c <= '9')
-        return (unsigned)(c - '0');
-    if (c >= 'a' && c <= 'z')
-        return (unsigned)(c - 'a') + 10;
-    if (c >= 'A' && c <= 'Z')
-        return (unsigned)(c - 'A') + 10;
-    return SPEC_NODIGIT;
+    return SPEC_DIGIT_VALUE(c);
 }
-
-/* "can continue a number in that base" */
 static inline int spec_is_digit_of(char c, unsigned base)
 {
-    return spec_digit_value(c) < base;
+    return SPEC_IS_DIGIT_OF(c, base);
 }
 
 /* powers of the base: spec_pow[j] = base^j, or 0 when base^j >= 2^64 (greater than every value).
